@@ -691,6 +691,14 @@ pub struct WriteConn {
     _permit: OwnedSemaphorePermit,
 }
 
+impl WriteConn {
+    /// Closes the connection instead of handing it back to the pool (the next writer gets
+    /// a freshly opened one), for when its per-connection state can't be trusted anymore.
+    pub fn discard(self) {
+        drop(sqlite_pool::Connection::take(self.conn));
+    }
+}
+
 impl Deref for WriteConn {
     type Target = sqlite_pool::Connection<CrConn>;
 
